@@ -1057,8 +1057,9 @@ impl<'s> Walker<'s> {
                             }
                         }
                         if !handled_collect && mname == "collect_vec" {
-                            let r = self.src.range(m.method.span());
-                            self.replace(r, "collect::<Vec<_>>", "R11");
+                            // itertools: `it.collect_vec()` == `it.collect::<Vec<_>>()`; routed through a wrapper (R13)
+                            self.open(es, "verif_collect(", "R13");
+                            self.replace((re, ee), ")", "R13");
                         }
                     }
                     _ => {}
